@@ -240,3 +240,16 @@ CHECKS["C19"] = {
             "memory, arities were as documented incl. empty input.",
     "note": _NOTE,
 }
+
+CHECKS["C20"] = {
+    "design_ref": "DESIGN.md section 5 C20",
+    "technique": "runtime round-trip monitor at the client boundary of every "
+                 "mir_eval.io loader (own writer, temp path and StringIO), "
+                 "single-fault corruptions, shim on io.load_delimited",
+    "text": "Every generated annotation file (10 formats, 6 delimiter styles, "
+            "comment lines, repr floats incl. denormals/exponents, Unicode labels "
+            "with internal delimiters) loaded back bit-identically from a path and "
+            "from a StringIO; every single-fault corruption raised ValueError "
+            "naming the row; convention-violating content warned without raising.",
+    "note": _NOTE,
+}
